@@ -28,6 +28,7 @@ def run(prog, tier):
     # the reconciliation table is part of what a load depends on
     import p_c05
     p_c05.sync_table_rule(prog, res, rule='load-reconcile')
+    CR.reader_refusals_rule(prog, res)
     # strings are stored trimmed: the trimmer must empty a cell made only of padding
     import p_c11
     p_c11.check_trimmer(prog, res, 'string-trim')
